@@ -319,6 +319,13 @@ func (st *state) emit(e *Event) *Event {
 	return e
 }
 
+// later gives the unknown content of cell addr after it may have been changed by other code (a later
+// generation of the cell's content): still recognisable as "a value of that cell", but a different value.
+func (st *state) later(addr *Sym, t types.Type) *Sym {
+	st.nextID++
+	return &Sym{Kind: KInit, Args: []*Sym{addr}, ID: st.nextID, Typ: t}
+}
+
 func (st *state) fresh(name string, t types.Type, ref interface{}) *Sym {
 	st.nextID++
 	return &Sym{Kind: KFresh, ID: st.nextID, Name: name, Typ: t, Ref: ref}
